@@ -642,7 +642,7 @@ func handleBatchWriteRequestError(table string, req types.WriteRequest, unproces
 // TransactWriteItems mock response for dynamodb
 func (fd *Client) TransactWriteItems(ctx context.Context, input *dynamodb.TransactWriteItemsInput, opts ...func(*dynamodb.Options)) (*dynamodb.TransactWriteItemsOutput, error) {
 	if err := fd.failureErr(); err != nil {
-		return nil, ErrForcedFailure
+		return nil, err
 	}
 
 	//TODO: Implement transact write
